@@ -18,13 +18,13 @@ type c12Op struct {
 	Val   int    `json:"v"`
 	Sleep int64  `json:"sleep_ns"` // sleep BEFORE this op
 	// observed
-	Now   int64       `json:"now"` // ns since history start, read before the call
-	Dur   int64       `json:"dur"`
-	Found bool        `json:"found"`
-	Ret   int64       `json:"ret"`
-	Bool  bool        `json:"b"`
-	Stats [5]int64    `json:"stats"`
-	Keys  []int       `json:"keys"`
+	Now   int64    `json:"now"` // ns since history start, read before the call
+	Dur   int64    `json:"dur"`
+	Found bool     `json:"found"`
+	Ret   int64    `json:"ret"`
+	Bool  bool     `json:"b"`
+	Stats [5]int64 `json:"stats"`
+	Keys  []int    `json:"keys"`
 }
 
 type c12Case struct {
